@@ -8,6 +8,7 @@ import (
 	"time"
 
 	"github.com/pion/interceptor"
+	"github.com/pion/interceptor/internal/verifhook"
 	"github.com/pion/logging"
 	"github.com/pion/rtcp"
 )
@@ -126,6 +127,7 @@ func (r *GeneratorInterceptor) loop(rtcpWriter interceptor.RTCPWriter) {
 			r.writePLIs(rtcpWriter, ssrcs)
 
 		case <-tickerChan:
+			verifhook.Gate("intervalpli.tick", r)
 			ssrcs := make([]uint32, 0)
 
 			r.streams.Range(func(k, _ any) bool {
